@@ -64,6 +64,9 @@ def setup_env():
     import warnings
 
     warnings.filterwarnings("ignore")
+    import logging
+
+    logging.getLogger("arim").setLevel(logging.ERROR)
     return hsh
 
 
